@@ -54,9 +54,9 @@ def timestampToHex (now : Int) : Py (List Char) := do
 
 /-- `set_message_length` -/
 def setMessageLength (message : List Char) : Py (List Char) := do
-  let bs ← pyUnhexlify (message ++ "00000000".toList)
+  let bs ← pyUnhexlify (message ++ cs!"00000000")
   let l ← packLE16 bs.length
-  pure ("fef0".toList ++ hexlify l ++ message.drop 8)
+  pure (cs!"fef0" ++ hexlify l ++ message.drop 8)
 
 /-- `seconds_to_iso_time`: `datetime.time(hour, minute, second).isoformat()`; hour ≥ 24 raises ValueError -/
 def secondsToIso (allSeconds : Nat) : Py (List Char) :=
